@@ -532,7 +532,7 @@ fn main() {
     let threads: usize = arg("--threads", "8").parse().unwrap_or(8);
     let per_class: usize = arg("--per-class", "6").parse().unwrap_or(6);
     let slow_max: usize = arg("--slow", "6").parse().unwrap_or(6);
-    let front_timeout: u32 = arg("--front-timeout", "1").parse().unwrap_or(1);
+    let front_timeout: u32 = arg("--front-timeout", "2").parse().unwrap_or(1);
     let only_codec = arg("--only", "") == "codec";
 
     let mut codecs: Vec<Value> = Vec::new();
